@@ -78,9 +78,13 @@ type c10Step struct {
 }
 
 type c10Case struct {
-	Name  string    `json:"name"`
-	Gen   string    `json:"gen"` // enum | random
-	Steps []c10Step `json:"steps"`
+	Name string `json:"name"`
+	Gen  string `json:"gen"` // enum | random
+	// Authors is the number of identities the case uses (1..4; 0 = 2, cases recorded before the field
+	// existed); Creator and every Step.Author are indices into them (taken modulo Authors).
+	Authors int       `json:"authors,omitempty"`
+	Creator int       `json:"creator,omitempty"`
+	Steps   []c10Step `json:"steps"`
 	// Split: in the cache run the first Split steps are written with the entity API and
 	// committed before the cache is opened; the rest goes through BugCache.
 	Split int `json:"split"`
@@ -96,6 +100,47 @@ func (c c10Case) label() string {
 	head := c10Case{Steps: c.Steps[:8]}
 	return fmt.Sprintf("%s...(%d symbols)", head.symString(), len(c.Steps))
 }
+
+// nAuthors is the number of identities of the case.
+func (c c10Case) nAuthors() int {
+	switch {
+	case c.Authors <= 0:
+		return 2
+	case c.Authors > c10MaxAuthors:
+		return c10MaxAuthors
+	}
+	return c.Authors
+}
+
+// author maps an author index of the case to an identity of the environment.
+func (c c10Case) author(env *c10Env, idx int) identity.Interface {
+	n := c.nAuthors()
+	if n > len(env.authors) {
+		n = len(env.authors)
+	}
+	if idx < 0 {
+		idx = -idx
+	}
+	return env.authors[idx%n]
+}
+
+// authorString is the author assignment of the case: creator, then one digit per step.
+func (c c10Case) authorString() string {
+	n := c.nAuthors()
+	var sb strings.Builder
+	fmt.Fprintf(&sb, "%d", c.Creator%n)
+	if len(c.Steps) > 0 {
+		sb.WriteByte('|')
+	}
+	for _, s := range c.Steps {
+		fmt.Fprintf(&sb, "%d", s.Author%n)
+	}
+	return sb.String()
+}
+
+const c10MaxAuthors = 4
+
+var c10AuthorNames = []string{"Ann C10", "Bob C10", "Cy C10", "Dee C10"}
 
 func (c c10Case) symString() string {
 	parts := make([]string, len(c.Steps))
@@ -477,6 +522,12 @@ type c10Tracker struct {
 	model *refmodel.BugState
 	nOps  int // operations already absorbed
 	bad   bool
+	// replay, when set, is reported as the replayable case instead of c (fault cases).
+	replay any
+	// quiet: do not count the absorbed operations (a second tracker over operations already counted).
+	quiet bool
+	// mismatches counts the disagreements check has reported so far.
+	mismatches int
 }
 
 func newC10Tracker(r obsSink, c c10Case) *c10Tracker {
@@ -499,7 +550,9 @@ func (tk *c10Tracker) absorb(all []dag.Operation) int {
 			return n
 		}
 		tk.ops = append(tk.ops, d)
-		tk.r.Count("ops/"+d.Kind, 1)
+		if !tk.quiet {
+			tk.r.Count("ops/"+d.Kind, 1)
+		}
 		n++
 	}
 	tk.nOps = len(all)
@@ -517,6 +570,11 @@ func bugOpsAsDag(b *bug.Bug) []dag.Operation {
 
 // check compares one snapshot with the model.
 func (tk *c10Tracker) check(phase string, snap *bug.Snapshot, lastSym string) {
+	tk.checkCtx(phase, snap, lastSym, "")
+}
+
+// checkCtx is check with a description of the circumstances added to the witness.
+func (tk *c10Tracker) checkCtx(phase string, snap *bug.Snapshot, lastSym, ctx string) {
 	if tk.bad {
 		return
 	}
@@ -525,8 +583,16 @@ func (tk *c10Tracker) check(phase string, snap *bug.Snapshot, lastSym string) {
 	if getBad != "" {
 		tk.r.Violation(phase+"/getmetadata-inconsistent", getBad+" in "+tk.c.Name, tk.c)
 	}
+	if ctx != "" {
+		ctx = " (" + ctx + ")"
+	}
+	var rep any = map[string]any{"case": tk.c, "ops": tk.ops}
+	if tk.replay != nil {
+		rep = tk.replay
+	}
 	for _, mm := range tk.model.Compare(obs) {
-		tk.r.Violation(phase+"/"+mm.Component, fmt.Sprintf("%s after %q (last symbol %s) in case %s [%s]", mm.Detail, phase, lastSym, tk.c.Name, tk.c.label()), map[string]any{"case": tk.c, "ops": tk.ops})
+		tk.mismatches++
+		tk.r.Violation(phase+"/"+mm.Component, fmt.Sprintf("%s after %q (last symbol %s) in case %s [%s]%s", mm.Detail, phase, lastSym, tk.c.Name, tk.c.label(), ctx), rep)
 	}
 	// record latitude actually taken by the implementation
 	present := map[string]bool{}
@@ -568,6 +634,20 @@ func (tk *c10Tracker) check(phase string, snap *bug.Snapshot, lastSym string) {
 	}
 }
 
+// c10CountAuthorShape records how many authors a finished case had and whether the order in which
+// the authors first acted differs from the order in which they first commented (the n-th author
+// that must be an actor is not the n-th author that must be a participant).
+func c10CountAuthorShape(r obsSink, prefix string, m *refmodel.BugState) {
+	r.Count(fmt.Sprintf("%s/authors=%d", prefix, len(m.AnyAuthors)), 1)
+	r.Count(fmt.Sprintf("%s/must-actors=%d/must-participants=%d", prefix, len(m.MustActors), len(m.MustParticipants)), 1)
+	for i := range m.MustParticipants {
+		if i < len(m.MustActors) && m.MustActors[i] != m.MustParticipants[i] {
+			r.Count(prefix+"/order-of-first-action-differs-from-order-of-first-comment", 1)
+			break
+		}
+	}
+}
+
 func (tk *c10Tracker) features() (sig string) {
 	kinds := map[string]bool{}
 	for _, o := range tk.ops {
@@ -592,7 +672,7 @@ func (tk *c10Tracker) features() (sig string) {
 			return "64+"
 		}
 	}
-	return fmt.Sprintf("len%s/comments%s/labels%d/override%s/ineffEdits%s/kinds%d", bucket(len(tk.ops)), bucket(len(tk.model.Comments)), len(tk.model.Labels), bucket(tk.model.OverrideAttempts), bucket(tk.model.IneffectiveEdits), len(ks))
+	return fmt.Sprintf("len%s/comments%s/labels%d/override%s/ineffEdits%s/kinds%d/authors%d", bucket(len(tk.ops)), bucket(len(tk.model.Comments)), len(tk.model.Labels), bucket(tk.model.OverrideAttempts), bucket(tk.model.IneffectiveEdits), len(ks), len(tk.model.AnyAuthors))
 }
 
 // ---- in-memory run ------------------------------------------------------------
@@ -607,7 +687,7 @@ func newC10MemWorld() (*c10MemWorld, error) {
 	repo := repository.NewMockRepo()
 	mw := &c10MemWorld{repo: repo, t: 1_600_000_000}
 	env := &c10Env{now: func() int64 { mw.t++; return mw.t }}
-	for _, name := range []string{"Ann C10", "Bob C10"} {
+	for _, name := range c10AuthorNames {
 		i, err := identity.NewIdentity(repo, name, strings.ReplaceAll(name, " ", ".")+"@example.com")
 		if err != nil {
 			return nil, err
@@ -644,7 +724,7 @@ func c10RunMem(r obsSink, mw *c10MemWorld, c c10Case, verbose bool) {
 	env := mw.env
 	tk := newC10Tracker(r, c)
 	title, msg, files, meta := c10CreateArgs(c, env)
-	b, _, err := bug.Create(env.authors[0], env.now(), title, msg, files, meta)
+	b, _, err := bug.Create(c.author(env, c.Creator), env.now(), title, msg, files, meta)
 	if err != nil {
 		r.Inconclusive("C10 harness: create refused: " + err.Error())
 		return
@@ -653,7 +733,7 @@ func c10RunMem(r obsSink, mw *c10MemWorld, c c10Case, verbose bool) {
 	tk.check("compile", b.Compile(), "create")
 	for pos, st := range c.Steps {
 		p := c10MakePlan(st, pos, env, tk.model, tk.ops)
-		err := c10ApplyEntity(b, env.authors[st.Author%len(env.authors)], env.now(), p)
+		err := c10ApplyEntity(b, c.author(env, st.Author), env.now(), p)
 		if err != nil {
 			r.Count("entity_refused/"+st.Sym, 1)
 			r.Seen("entity_refusals", st.Sym+": "+err.Error())
@@ -693,9 +773,10 @@ func c10RunMem(r obsSink, mw *c10MemWorld, c c10Case, verbose bool) {
 	r.Count("override_attempts_seen", tk.model.OverrideAttempts)
 	r.Count("ineffective_edits_seen", tk.model.IneffectiveEdits)
 	r.Count("authors_with_only_ineffective_edits", len(tk.model.IneffectiveOnlyAuthors()))
+	c10CountAuthorShape(r, "mem_cases", tk.model)
 	nontrivial := len(tk.ops) > 1
 	if c.Gen == "enum" {
-		r.Case("enum:"+c.symString(), nontrivial)
+		r.Case("enum:"+c.symString()+"/"+c.authorString(), nontrivial)
 	} else {
 		r.Case("random:"+tk.features(), nontrivial)
 	}
@@ -720,7 +801,7 @@ func c10RunCacheBatch(r obsSink, cases []c10Case, verbose bool) {
 	defer w.Close()
 	rep := w.Replicas[0]
 	env := &c10Env{now: w.Now}
-	for _, name := range []string{"Ann C10", "Bob C10"} {
+	for _, name := range c10AuthorNames {
 		a, err := rep.NewAuthor(name)
 		if err != nil {
 			r.Inconclusive("C10: cannot create author: " + err.Error())
@@ -746,7 +827,7 @@ func c10RunCacheBatch(r obsSink, cases []c10Case, verbose bool) {
 			continue
 		}
 		title, msg, files, meta := c10CreateArgs(c, env)
-		b, _, err := bug.Create(env.authors[0], env.now(), title, msg, files, meta)
+		b, _, err := bug.Create(c.author(env, c.Creator), env.now(), title, msg, files, meta)
 		if err != nil {
 			r.Inconclusive("C10 harness: create refused: " + err.Error())
 			cb.tk.bad = true
@@ -756,7 +837,7 @@ func c10RunCacheBatch(r obsSink, cases []c10Case, verbose bool) {
 		for pos := 0; pos < c.Split && pos < len(c.Steps); pos++ {
 			st := c.Steps[pos]
 			p := c10MakePlan(st, pos, env, cb.tk.model, cb.tk.ops)
-			if err := c10ApplyEntity(b, env.authors[st.Author%len(env.authors)], env.now(), p); err != nil {
+			if err := c10ApplyEntity(b, c.author(env, st.Author), env.now(), p); err != nil {
 				r.Count("entity_refused/"+st.Sym, 1)
 			}
 			cb.tk.absorb(bugOpsAsDag(b))
@@ -792,7 +873,7 @@ func c10RunCacheBatch(r obsSink, cases []c10Case, verbose bool) {
 			cb.tk.check("cache-load", bc.Snapshot(), "-")
 		} else {
 			title, msg, files, meta := c10CreateArgs(c, env)
-			bc, _, err := rc.Bugs().NewRaw(env.authors[0], env.now(), title, msg, files, meta)
+			bc, _, err := rc.Bugs().NewRaw(c.author(env, c.Creator), env.now(), title, msg, files, meta)
 			if err != nil {
 				r.Inconclusive("C10: NewRaw failed: " + err.Error())
 				cb.tk.bad = true
@@ -810,7 +891,7 @@ func c10RunCacheBatch(r obsSink, cases []c10Case, verbose bool) {
 			st := c.Steps[pos]
 			p := c10MakePlan(st, pos, env, cb.tk.model, cb.tk.ops)
 			// take the snapshot before: a stale alias held by a caller must not matter
-			err := c10ApplyCache(cb.bc, env.authors[st.Author%len(env.authors)], env.now(), p)
+			err := c10ApplyCache(cb.bc, c.author(env, st.Author), env.now(), p)
 			switch {
 			case err == errC10Unsupported:
 				r.Count("cache_not_expressible/"+st.Sym, 1)
@@ -897,9 +978,10 @@ func c10RunCacheBatch(r obsSink, cases []c10Case, verbose bool) {
 		if a, b := c10Render(snap), c10Render(rb.Compile()); a != b {
 			r.Violation("cache-reload-vs-scratch/"+c10DiffComponent(a, b), fmt.Sprintf("snapshot after cache reload differs from a compilation from scratch in case %s [%s]:\n cache: %s\n from scratch: %s", c.Name, c.label(), a, b), map[string]any{"case": c, "ops": cb.tk.ops})
 		}
+		c10CountAuthorShape(r, "cache_cases", cb.tk.model)
 		nontrivial := len(cb.tk.ops) > 1
 		if c.Gen == "enum" {
-			r.Case(fmt.Sprintf("cache-enum:%s@%d", c.symString(), c.Split), nontrivial)
+			r.Case(fmt.Sprintf("cache-enum:%s/%s@%d", c.symString(), c.authorString(), c.Split), nontrivial)
 		} else {
 			r.Case(fmt.Sprintf("cache-random:%s/split%v", cb.tk.features(), c.Split > 0), nontrivial)
 		}
@@ -935,26 +1017,122 @@ func c10DiffComponent(a, b string) string {
 
 // ---- case lists ----------------------------------------------------------------
 
-func c10EnumCases(r *mon.Run) []c10Case {
+// c10AuthorPatterns lists the author assignments of a create followed by n operations, up to
+// renaming of the authors: the creator is author 0 and every later operation is by an author
+// already seen or by the next fresh one (restricted growth strings), with at most c10MaxAuthors
+// authors. n=1: 2, n=2: 5, n=3: 15, n=4: 51 patterns.
+func c10AuthorPatterns(n int) [][]int {
+	var out [][]int
+	var rec func(cur []int, used int)
+	rec = func(cur []int, used int) {
+		if len(cur) == n {
+			out = append(out, append([]int{}, cur...))
+			return
+		}
+		for a := 0; a <= used && a < c10MaxAuthors; a++ {
+			nu := used
+			if a == used {
+				nu++
+			}
+			rec(append(cur, a), nu)
+		}
+	}
+	rec(nil, 1)
+	return out
+}
+
+// c10NamedAuthorPatterns are the assignments used where the full list is too long (thorough,
+// length 4): one author, two alternating, the creator then two others alternating, three
+// round-robin, every operation by a fresh author (as far as the four identities go), a newcomer
+// at the very end.
+func c10NamedAuthorPatterns(n int) [][]int {
+	gen := func(f func(i int) int) []int {
+		p := make([]int, n)
+		for i := range p {
+			p[i] = f(i)
+		}
+		return p
+	}
+	cand := [][]int{
+		gen(func(i int) int { return 0 }),
+		gen(func(i int) int { return (i + 1) % 2 }),
+		gen(func(i int) int { return 1 + i%2 }),
+		gen(func(i int) int { return (i + 1) % 3 }),
+		gen(func(i int) int { return (i + 1) % c10MaxAuthors }),
+		gen(func(i int) int {
+			if i == n-1 {
+				return 1
+			}
+			return 0
+		}),
+	}
+	var out [][]int
+	seen := map[string]bool{}
+	for _, p := range cand {
+		k := fmt.Sprint(p)
+		if !seen[k] {
+			seen[k] = true
+			out = append(out, p)
+		}
+	}
+	return out
+}
+
+func c10CountAuthors(p []int) int {
+	n := 1
+	for _, a := range p {
+		if a+1 > n {
+			n = a + 1
+		}
+	}
+	return n
+}
+
+// c10EnumCases returns the enumerated cases: mem is the list run in memory (every symbol
+// sequence with every author assignment, see c10AuthorPatterns; in the thorough tier the
+// sequences of length 4 get the named assignments plus two drawn from the seed), cch is the
+// list driven through the cache (every symbol sequence once, with an assignment drawn from the
+// full list).
+func c10EnumCases(r *mon.Run) (mem, cch []c10Case) {
 	maxLen := r.Pick(3, 4)
-	var out []c10Case
+	const fullUpTo = 3
+	patterns := map[int][][]int{}
+	for n := 0; n <= maxLen; n++ {
+		patterns[n] = c10AuthorPatterns(n)
+	}
 	var rec func(prefix []string)
 	idx := 0
 	rec = func(prefix []string) {
 		rng := mon.Rng(r.Seed, "c10-enum", idx)
 		idx++
-		c := c10Case{Gen: "enum"}
-		for _, s := range prefix {
-			c.Steps = append(c.Steps, c10Step{Sym: s, Author: rng.Intn(2), Arg: rng.Intn(210)})
+		n := len(prefix)
+		mk := func(rng *rand.Rand, pat []int, name string) c10Case {
+			c := c10Case{Gen: "enum", Name: name, Authors: c10CountAuthors(pat)}
+			for i, s := range prefix {
+				c.Steps = append(c.Steps, c10Step{Sym: s, Author: pat[i], Arg: rng.Intn(210)})
+			}
+			return c
 		}
-		c.Name = fmt.Sprintf("enum-%d", idx)
-		c.Split = 0
-		if len(prefix) > 0 && rng.Intn(2) == 0 {
-			c.Split = 1 + rng.Intn(len(prefix))
+		// cache list
+		all := patterns[n]
+		c := mk(rng, all[rng.Intn(len(all))], fmt.Sprintf("enum-%d", idx))
+		if n > 0 && rng.Intn(2) == 0 {
+			c.Split = 1 + rng.Intn(n)
 		}
 		c.CommitEvery = rng.Intn(3)
-		out = append(out, c)
-		if len(prefix) == maxLen {
+		cch = append(cch, c)
+		// in-memory list
+		pats := all
+		if n > fullUpTo {
+			pats = c10NamedAuthorPatterns(n)
+			for k := 0; k < 2; k++ {
+				pats = append(pats, all[rng.Intn(len(all))])
+			}
+		}
+		for k, pat := range pats {
+			mem = append(mem, mk(mon.Rng(r.Seed, "c10-enum-mem", idx*64+k), pat, fmt.Sprintf("enum-%d-a%d", idx, k)))
+		}
+		if n == maxLen {
 			return
 		}
 		for _, s := range c10Alphabet {
@@ -962,11 +1140,12 @@ func c10EnumCases(r *mon.Run) []c10Case {
 		}
 	}
 	rec(nil)
-	return out
+	return mem, cch
 }
 
 func c10RandomCase(rng *rand.Rand, n int, name string) c10Case {
-	c := c10Case{Gen: "random", Name: name}
+	c := c10Case{Gen: "random", Name: name, Authors: 1 + rng.Intn(c10MaxAuthors)}
+	c.Creator = rng.Intn(c.Authors)
 	// weights: a few profiles so that long comment/edit chains, label churn and metadata churn all occur
 	profile := rng.Intn(4)
 	for i := 0; i < n; i++ {
@@ -984,7 +1163,7 @@ func c10RandomCase(rng *rand.Rand, n int, name string) c10Case {
 		if rng.Intn(5) == 0 {
 			sym = c10Alphabet[rng.Intn(len(c10Alphabet))]
 		}
-		c.Steps = append(c.Steps, c10Step{Sym: sym, Author: rng.Intn(2), Arg: rng.Intn(210)})
+		c.Steps = append(c.Steps, c10Step{Sym: sym, Author: rng.Intn(c.Authors), Arg: rng.Intn(210)})
 	}
 	if rng.Intn(2) == 0 {
 		c.Split = 1 + rng.Intn(n)
@@ -1016,6 +1195,11 @@ func runC10(tier, replay string) int {
 		}
 		var c c10Case
 		if err == nil {
+			var fc c10FaultCase
+			if json.Unmarshal(rep.Case, &fc) == nil && fc.Fault {
+				c10RunFaultCase(r, fc, true)
+				return r.Finish("replay of one fault case", 0, nil)
+			}
 			// the case is either the bare case or {"case":…, "ops":…}
 			var wrapped struct {
 				Case *c10Case `json:"case"`
@@ -1040,13 +1224,15 @@ func runC10(tier, replay string) int {
 		return r.Finish("replay of one case", 0, nil)
 	}
 
-	enum := c10EnumCases(r)
+	enumMem, enum := c10EnumCases(r)
 	random := c10RandomCases(r)
-	all := append(append([]c10Case{}, enum...), random...)
+	all := append(append([]c10Case{}, enumMem...), random...)
 	r.Extra("enumerated_sequences", len(enum))
+	r.Extra("enumerated_sequences_with_author_assignment", len(enumMem))
 	r.Extra("random_sequences", len(random))
 	r.Extra("alphabet", c10Alphabet)
-	r.Extra("exhaustive_scope", fmt.Sprintf("all sequences of length <= %d over the %d-symbol alphabet after the create (authors and parameters drawn per sequence from the seed)", r.Pick(3, 4), len(c10Alphabet)))
+	r.Extra("author_assignments_per_length", map[string]int{"1": len(c10AuthorPatterns(1)), "2": len(c10AuthorPatterns(2)), "3": len(c10AuthorPatterns(3)), "4": len(c10AuthorPatterns(4))})
+	r.Extra("exhaustive_scope", fmt.Sprintf("in memory: all sequences of length <= %d over the %d-symbol alphabet after the create, each with every assignment of up to %d authors to the create and the operations up to renaming of the authors (sequences of length 4, thorough tier: 6 named assignments + 2 drawn from the seed); through the cache: every sequence once with an assignment drawn from the seed; parameters drawn per case from the seed", r.Pick(3, 4), len(c10Alphabet), c10MaxAuthors))
 	minLen, maxLen := 1<<30, 0
 	for _, c := range random {
 		if len(c.Steps) < minLen {
@@ -1125,14 +1311,32 @@ func runC10(tier, replay string) int {
 		}
 	}
 
+	// (3) failed and partial commits: one child process per staging pattern
+	faults := c10FaultCases(r)
+	r.Extra("fault_staging_patterns", len(faults))
+	foutcomes := runBatches[c10FaultCase, *obsRecord]("", "c10fault", faults, 2, 5*time.Minute, nil)
+	for i, oc := range foutcomes {
+		switch {
+		case oc.Crashed:
+			r.Count("fault_cases_crashed", 1)
+			r.Violation("crash:"+oc.Site, fmt.Sprintf("the process died while fault case %s (%s) was driven through BugCache:\n%s", faults[i].Name, faults[i].shape(), oc.Excerpt), faults[i])
+		case oc.TimedOut || oc.Result == nil || *oc.Result == nil:
+			r.Inconclusive(fmt.Sprintf("fault case %s did not finish: %s", faults[i].Name, oc.Site))
+		default:
+			(*oc.Result).replayInto(r)
+		}
+	}
+	r.Sample(faults[len(faults)/2])
+
 	r.Sample(enum[len(enum)/2])
 	r.Sample(map[string]any{"name": random[0].Name, "length": len(random[0].Steps), "split": random[0].Split, "first_steps": random[0].Steps[:8]})
 
-	return r.Finish("every sequence of length <= 3 (thorough 4) over a 13-symbol alphabet after the create, plus seeded random sequences of 20..300 symbols, each run (1) in memory with bug.Compile() after every step, compiled twice, committed to the in-memory backend, re-read and compiled from scratch, and (2) on a real repository: a prefix written with the entity API, the rest appended through BugCache with BugCache.Snapshot() compared after every operation, after commit (also against a from-scratch compilation of the bug re-read from git) and after closing and reopening the cache; a case is non-trivial when at least one operation follows the create; distinct = distinct symbol sequence (enumeration, per run mode and split point) or distinct feature vector (random: length/comment/override/ineffective-edit buckets, label count, kinds)",
-		r.Pick(1500, 10000), []string{
+	return r.Finish("every sequence of length <= 3 (thorough 4) over a 13-symbol alphabet after the create, in memory with every assignment of up to 4 authors to the create and the operations (up to renaming; length 4: 8 assignments), plus seeded random sequences of 20..300 symbols by 1..4 authors, each run (1) in memory with bug.Compile() after every step, compiled twice, committed to the in-memory backend, re-read and compiled from scratch, and (2) on a real repository (every enumerated sequence once, author assignment drawn from the seed): a prefix written with the entity API, the rest appended through BugCache with BugCache.Snapshot() compared after every operation, after commit (also against a from-scratch compilation of the bug re-read from git) and after closing and reopening the cache; (3) failed and partial commits: operations of 1..3 authors staged in one BugCache (4 fixed stagings through both Commit and CommitAsNeeded, every assignment of 3 authors to 1..3 (thorough 4) staged operations, longer ones drawn from the seed), the commit repeated on a fresh bug once per mutating storage call of its fault-free run with that call returning an error (clock increment, blobs, trees, commit of every run of same-author operations, ref update), BugCache.Snapshot() compared right after the failed commit, after the retry (when NeedCommit) and after one more committed operation with a compilation from scratch of the entity the BugCache holds, with the reference interpretation of the operations that entity holds, and (after the commit that returned nil) with a compilation of the bug re-read from git; actors and participants are compared as duplicate-free sets with the model (must/any-author rules); a case is non-trivial when at least one operation follows the create (fault case: the commit returned an error); distinct = distinct symbol sequence + author assignment (enumeration, per run mode and split point), distinct feature vector (random: length/comment/override/ineffective-edit buckets, label count, kinds, authors) or distinct staging + fault position (fault cases)",
+		r.Pick(20000, 150000), []string{
 			"the operations handed to the reference interpreter are the payloads git-bug stored (ChangeLabels' own de-duplication is part of building the operation, not of interpreting it)",
-			"not constrained (statement silent): files of a never-edited creation comment; whether authors of ineffective, metadata or no-op operations are actors; whether a state-changing kind of operation that changes nothing has a timeline entry; the author recorded in history steps",
+			"not constrained (statement silent): files of a never-edited creation comment; whether authors of ineffective, metadata or no-op operations are actors; whether a state-changing kind of operation that changes nothing has a timeline entry; the author recorded in history steps; the order of actors and participants",
 			"no-op operations and edits with files / unknown targets cannot be expressed through BugCache: they reach the cache only through the entity-API prefix that the cache loads from git",
+			"failed commits: what a failed commit does to the staged operations (kept, dropped, half written) is recorded (fault/head-behaviour) but not judged - C10 is about the compiled state of whatever operations the bug holds; the bug re-read from git is compared only after a commit that returned nil; the entity inside the BugCache is reached by reflection (unexported fields CachedEntityBase.entity, withSnapshot.Interface) - if that fails the fault cases are inconclusive; commits refused by validation are not generated (the BugCache API validates every operation before staging it)",
 		})
 }
 
